@@ -80,6 +80,10 @@ class LineParser(object):
         for line in lines:
             fields = line.split(None, 4)
 
+            if len(fields) < 4:
+                raise ListingError(
+                    'Could not parse line {}'.format(repr(line)))
+
             date_str = fields[0]
             time_str = fields[1]
 
